@@ -44,6 +44,13 @@ func vhSymbolicRequest(route int, emptyHeaderValues bool) greq.Req {
 	case 2:
 		vhOptional("a", "a", 0, 1, "a", &r.Form)
 		vhOptional("b", "b", 0, 2, "01-a", &r.Form)
+		// the same names in the URL query: not form fields, on any engine
+		if symxBool("a.alsoInQuery") {
+			r.Query = append(r.Query, greq.KV{Key: "a", Value: "q"})
+		}
+		if symxBool("b.alsoInQuery") {
+			r.Query = append(r.Query, greq.KV{Key: "b", Value: "7"})
+		}
 	case 3:
 		n := symxChoice("tags.n", 2)
 		for k := 0; k < n; k++ {
